@@ -651,13 +651,24 @@ theorem butterfly_ok (a0 a1 a2 a3 b0 b1 b2 b3 : Nat)
       r0 < W ∧ r1 < W ∧ r2 < W ∧ r3 < W ∧ s0 < W ∧ s1 < W ∧ s2 < W ∧ s3 < W ∧
       val4 r0 r1 r2 r3 = (val4 a0 a1 a2 a3 + val4 b0 b1 b2 b3) % Q ∧
       val4 s0 s1 s2 s3 = (val4 a0 a1 a2 a3 + (Q - val4 b0 b1 b2 b3)) % Q := by
+  -- the source computes both results from copies of the operands: `b.Sub(&t, &u); a.Add(&t, &u)`
   obtain ⟨r0, r1, r2, r3, er, g0, g1, g2, g3, hr⟩ :=
-    add_ok 0 0 0 0 a0 a1 a2 a3 b0 b1 b2 b3 ha0 ha1 ha2 ha3 hb0 hb1 hb2 hb3 ha hb
-  rw [← add_zx 0 0 0 0] at er
+    add_ok a0 a1 a2 a3 a0 a1 a2 a3 b0 b1 b2 b3 ha0 ha1 ha2 ha3 hb0 hb1 hb2 hb3 ha hb
   obtain ⟨s0, s1, s2, s3, es, k0, k1, k2, k3, hs⟩ :=
-    sub_ok 0 0 0 0 a0 a1 a2 a3 b0 b1 b2 b3 ha0 ha1 ha2 ha3 hb0 hb1 hb2 hb3 ha hb
-  rw [← sub_zy 0 0 0 0] at es
+    sub_ok b0 b1 b2 b3 a0 a1 a2 a3 b0 b1 b2 b3 ha0 ha1 ha2 ha3 hb0 hb1 hb2 hb3 ha hb
   exact ⟨r0, r1, r2, r3, s0, s1, s2, s3, by limb_eval [butterflyGeneric],
     g0, g1, g2, g3, k0, k1, k2, k3, hr, hs⟩
+
+/-- `Butterfly(a, a)` on the portable path: both arguments the same element; the sum, stored last, survives. -/
+theorem butterfly_ab_ok (a0 a1 a2 a3 : Nat)
+    (ha0 : a0 < W) (ha1 : a1 < W) (ha2 : a2 < W) (ha3 : a3 < W) (ha : val4 a0 a1 a2 a3 < Q) :
+    ∃ r0 r1 r2 r3, butterflyGeneric_ab a0 a1 a2 a3 = (r0, r1, r2, r3) ∧
+      r0 < W ∧ r1 < W ∧ r2 < W ∧ r3 < W ∧
+      val4 r0 r1 r2 r3 = (val4 a0 a1 a2 a3 + val4 a0 a1 a2 a3) % Q := by
+  obtain ⟨s0, s1, s2, s3, es, -⟩ :=
+    sub_ok a0 a1 a2 a3 a0 a1 a2 a3 a0 a1 a2 a3 ha0 ha1 ha2 ha3 ha0 ha1 ha2 ha3 ha ha
+  obtain ⟨r0, r1, r2, r3, er, g0, g1, g2, g3, hr⟩ :=
+    add_ok s0 s1 s2 s3 a0 a1 a2 a3 a0 a1 a2 a3 ha0 ha1 ha2 ha3 ha0 ha1 ha2 ha3 ha ha
+  exact ⟨r0, r1, r2, r3, by limb_eval [butterflyGeneric_ab], g0, g1, g2, g3, hr⟩
 
 end I3.Limbs
